@@ -51,6 +51,22 @@ template <std::uint64_t R> struct synth
     friend std::istream& operator>>(std::istream& i, synth& c) { return i >> c.s; }
 };
 
+// synthetic engine with the range [LO, HI], LO != 0 (the range, not the maximum, decides how many outputs a canonical number takes)
+template <std::uint64_t LO, std::uint64_t HI> struct synth_off
+{
+    using result_type = std::uint64_t;
+    static constexpr result_type min() { return LO; }
+    static constexpr result_type max() { return HI; }
+    std::uint64_t s = 12345;
+    synth_off() = default;
+    explicit synth_off(std::uint64_t x) : s(x) {}
+    result_type operator()() { s = s * 6364136223846793005ULL + 1442695040888963407ULL; return LO + (s >> 20) % (HI - LO + 1); }
+    void discard(unsigned long long n) { while (n--) (*this)(); }
+    friend bool operator==(synth_off const& a, synth_off const& b) { return a.s == b.s; }
+    friend std::ostream& operator<<(std::ostream& o, synth_off const& c) { return o << c.s; }
+    friend std::istream& operator>>(std::istream& i, synth_off& c) { return i >> c.s; }
+};
+
 static std::uint64_t g_seed = 1;
 static std::uint64_t mix(std::uint64_t x) { x += 0x9e3779b97f4a7c15ULL; x = (x ^ (x >> 30)) * 0xbf58476d1ce4e5b9ULL; x = (x ^ (x >> 27)) * 0x94d049bb133111ebULL; return x ^ (x >> 31); }
 
@@ -195,6 +211,11 @@ template <typename T> void all_engines(char const* tname)
     draws_plain<T, std::linear_congruential_engine<unsigned long long, 6364136223846793005ULL, 1ULL, 18446744073709551557ULL>>(tname, "lcg m=2^64-59");
     draws_plain<T, std::shuffle_order_engine<std::independent_bits_engine<std::mt19937, 28, std::uint32_t>, 16>>(tname, "shuffle_order_engine<independent_bits_engine<mt19937, 28>, 16>");
     draws_adaptive<T, std::independent_bits_engine<std::mt19937_64, 53, std::uint64_t>>(tname, "independent_bits_engine<mt19937_64, 53>");
+    // ranges that do not start at zero and whose maximum + 1 is a power of two although the range is not
+    draws_plain<T, std::linear_congruential_engine<std::uint32_t, 69069u, 0u, 0u>>(tname, "lcg a=69069 c=0 m=2^32 (range [1, 2^32-1])");
+    draws_plain<T, synth_off<1, 16777215>>(tname, "synthetic range [1, 2^24-1]");
+    draws_plain<T, synth_off<2147483648ULL, 4294967295ULL>>(tname, "synthetic range [2^31, 2^32-1]");
+    draws_plain<T, synth_off<32768, 65535>>(tname, "synthetic range [2^15, 2^16-1]");
     draws_plain<T, synth<3>>(tname, "synthetic range 3");
     draws_plain<T, synth<1000>>(tname, "synthetic range 1000");
     draws_plain<T, synth<65537>>(tname, "synthetic range 65537");
